@@ -678,6 +678,8 @@ pub fn suite_eq(ctx: &Ctx, thorough: bool) {
         corpus.push(b.replace("n#s", "n%23s"));
         corpus.push(b.replace("a/b/n", "a%2Fb/n"));
         corpus.push(b.replace("/a/n", "/n@a"));
+        // a '/' inside the NAME next to a namespace: a different PURL than the one with that segment in the namespace
+        corpus.push(b.replace("a/n", "a/x%2Fn")); corpus.push(b.replace("a/n", "a/x/n")); corpus.push(b.replace("b/n", "b%2Fn"));
     }
     // keys that differ, at one position, in a letter against each non-letter of the key alphabet (and in letter case): the
     // hand-written comparisons of the key type and the derived ones must give ONE order
@@ -918,6 +920,10 @@ pub fn suite_comb(ctx: &Ctx, thorough: bool) {
         }
         strs.push(big);
     }
+    // Go major-version suffixes and other name-like last segments: the split is at the LAST '/', whatever follows it
+    for base in ["a", "a/b", "github.com/x/y", ""] { for tail in ["v2", "v10", "v1beta1", "V2", "v", "2"] { strs.push(format!("{base}/{tail}")); strs.push(format!("{base}/{tail}/z")); } }
+    // names whose lower-casing is context-sensitive if done on the whole string (word-final sigma), and title-case digraphs
+    for w in ["ΟΔΟΣ", "aΣ", "Σ", "ΑΣ/ΟΔΟΣ", "x:ΟΔΟΣ", "ǅx", "A_.-b"] { strs.push(w.to_string()); }
     par_for(strs.len(), &|i| {
         let s = &strs[i];
         for t in all_package_types() {
@@ -943,6 +949,16 @@ pub fn suite_comb(ctx: &Ctx, thorough: bool) {
             if let Ok(Ok(p)) = guarded(|| b.build()) {
                 // the PURL that is built reports that split: build() leaves the namespace alone, and the name up to the type's own rule
                 let name_kept = !matches!(t, PackageType::NuGet | PackageType::PyPI);
+                // for nuget / pypi: the same name as the other route to the same fields gives (Purl::builder + with_namespace)
+                let other_route = if name_kept { None } else {
+                    guarded(|| { let b0 = Purl::builder(t, wname); if wns.is_empty() { b0.build() } else { b0.with_namespace(wns).build() } }).ok().and_then(|r| r.ok()).map(|q| q.name().to_owned())
+                };
+                if let Some(n2) = &other_route {
+                    if p.name() != n2 {
+                        ctx.violate("U-comb.builder_with_combined_name", "split after the last '/' (golang, npm) / first ':' (maven) / not at all", json!({"type": t.name(), "combined": s, "observed": "name after build(), against Purl::builder"}),
+                                    format!("{:?}", p.name()), format!("{n2:?}"));
+                    }
+                }
                 if p.namespace().unwrap_or("") != wns || (name_kept && p.name() != wname) {
                     ctx.violate("U-comb.builder_with_combined_name", "split after the last '/' (golang, npm) / first ':' (maven) / not at all", json!({"type": t.name(), "combined": s, "observed": "after build()"}),
                                 format!("{:?} {:?}", p.namespace(), p.name()), format!("{wns:?} {wname:?}"));
